@@ -119,6 +119,13 @@ class Kernel:
         self.stalled = None
         self.send_faults = []             # injected sendto failures: {"proc", "dst_port" | None, "errno", "count"}
         self.keep_snaps = False           # keep the server's users[] snapshot in every wait event
+        # Scheduling latency: (probability, longest delay in us).  Computing takes no virtual time, so a program would otherwise
+        # see every datagram and tun frame on its own; with this set, a program that becomes runnable is now and then resumed a
+        # little later, and whatever else arrived meanwhile is reported by the same select() (several descriptors, several
+        # queued datagrams).  Drawn from a stream of its own, so that it does not disturb the scenario's other random choices.
+        self.sched_jitter = None
+        self.multi_ready = 0              # select() calls that reported several descriptors, or a socket with several datagrams waiting
+        self.jrng = random.Random(seed * 2654435761 % (1 << 32) ^ 0x5CED)
 
     # ------------------------------------------------------------------ log
     def emit(self, kind, who, **kw):
@@ -334,6 +341,7 @@ class Kernel:
                     else:
                         p.spin_t = self.now
                         p.spin_n = 0
+                    self._count_multi(p, ready)
                     self._reply(p, struct.pack("<H%di" % len(ready), len(ready), *ready))
                     continue
                 if to == 0:
@@ -527,6 +535,10 @@ class Kernel:
                 return ip
         return "0.0.0.0" if fam == AF_INET else "::"
 
+    def _count_multi(self, p, ready):
+        if len(ready) >= 2 or any(len(p.socks[fd].queue) >= 2 for fd in ready if fd in p.socks):
+            self.multi_ready += 1
+
     def _ready(self, p, fds):
         out = []
         for fd in fds:
@@ -596,8 +608,15 @@ class Kernel:
             p.state = "running"
             self._reply(p)
         else:
+            # (the timeout ran out; descriptors that became readable while the resume was being delayed are reported as well)
+            ready = self._ready(p, p.wait_fds) if getattr(p, "poke_deferred", False) else []
             p.state = "running"
-            self._reply(p, struct.pack("<H", 0))
+            if ready:
+                p.gen += 1
+                self._count_multi(p, ready)
+                self._reply(p, struct.pack("<H%di" % len(ready), len(ready), *ready))
+            else:
+                self._reply(p, struct.pack("<H", 0))
         self._service(p)
 
     def _poke(self, p):
@@ -620,10 +639,32 @@ class Kernel:
             return
         if p.state != "wait" or getattr(p, "frozen", False):
             return
+        if getattr(p, "poke_deferred", False):
+            return                      # it will be resumed shortly; this input queues up behind what woke it
+        ready = self._ready(p, p.wait_fds)
+        if ready and self.sched_jitter is not None and self.jrng.random() < self.sched_jitter[0]:
+            p.poke_deferred = True
+            self.after(self.jrng.randint(20, self.sched_jitter[1]), self._poke_late, p)
+            return
+        if ready:
+            p.state = "running"
+            p.gen += 1
+            self._count_multi(p, ready)
+            self._reply(p, struct.pack("<H%di" % len(ready), len(ready), *ready))
+            self._service(p)
+
+    def _poke_late(self, p):
+        p.poke_deferred = False
+        self._poke_now(p)
+
+    def _poke_now(self, p):
+        if p.state != "wait" or getattr(p, "frozen", False):
+            return
         ready = self._ready(p, p.wait_fds)
         if ready:
             p.state = "running"
             p.gen += 1
+            self._count_multi(p, ready)
             self._reply(p, struct.pack("<H%di" % len(ready), len(ready), *ready))
             self._service(p)
 
